@@ -403,6 +403,11 @@ func (r *Rsvcb) MarshalText() (text []byte, err error) {
 	}
 	putdomtext(buf, r.dom)
 	buf.Write(NSEP)
+	// UnmarshalText drops one leading "*." of the target: put it back when the
+	// name that was kept still begins with one
+	if bytes.HasPrefix(r.tgtname, []byte("*.")) {
+		buf.WriteString("*.")
+	}
 	putdomtext(buf, r.tgtname)
 	buf.Write(NSEP)
 	fmt.Fprintf(buf, "%d", r.ttl)
